@@ -1517,7 +1517,8 @@ def run(rep, tier, rnd, scratch):
     for bi, b in enumerate(behs):
         b["i"] = bi
     depth = 3 if tier == "quick" else 4
-    if not behs or any(len(b["ops"]) != depth for b in behs) or {b["mach"] for b in behs} != {"handlers", "create"}:
+    depth_a = 4 if tier == "quick" else 5  # machine "alias" (DepthA of the cfg)
+    if not behs or any(len(b["ops"]) != (depth_a if b["mach"] == "alias" else depth) for b in behs) or {b["mach"] for b in behs} != {"handlers", "create", "alias"}:
         machinery_failure(PID, f"MC_Registry emitted {len(behs)} behaviours (expected complete behaviours of {depth} operations of both machines)")
     from collections import Counter as _Ctr
     rnv = _Ctr()
@@ -1526,7 +1527,13 @@ def run(rep, tier, rnd, scratch):
             rnv[f"{o['op']}:{x['ref']}/{x['alg']}" + (f":{x['why']}" if x["why"] != "-" else "") + (f":DEV-{x['dev']}" if x["dev"] != "-" else "")] += 1
     rep.extra["registry_non_vacuity"] = dict(sorted(rnv.items()))
     need = {"reg:ok/ok", "reg:raise/raise", "use:value/value", "use:fail/ValueError", "use:fail/KeyError", "dump:a/a", "dump:b/b", "create:raise|new/new", "create:existing/existing",
-            "create:raise/raise:different-name", "create:raise|new/raise:name-clash", "create:raise|new/existing:DEV-string-flags-ignored"}
+            "create:raise/raise:different-name", "create:raise|new/raise:name-clash", "create:raise|new/existing:DEV-string-flags-ignored",
+            "createa:raise|new/new", "createa:existing/existing", "createa:raise/raise:different-name", "createa:raise|new/raise:name-clash", "mutate:ok/ok", "probe:probed/probed"}
+    # machine alias: histories in which a type is probed after the list it was created from was mutated, with a changed acceptance
+    n_after = sum(1 for b in behs if b["mach"] == "alias" and any(o["op"] == "probe" and _alias_diverged(b, q) for q, o in enumerate(b["ops"])))
+    rep.extra["registry_alias_probes_after_divergence"] = n_after
+    if n_after < 20:
+        machinery_failure(PID, f"vacuity (alias): only {n_after} behaviours probe a type after its list diverged")
     if not need <= set(rnv):
         machinery_failure(PID, f"vacuity (registry): missing {sorted(need - set(rnv))}")
     n_registry = pooled(rep, regy.replay_behaviours, behs, (), chunk=max(40, len(behs) // 64))
@@ -1592,7 +1599,7 @@ def run(rep, tier, rnd, scratch):
     for (bn, q), clauses in sorted(rrej.items()):
         b = rbeh[bn - 1]
         hist = [regy.op_label(x) for x in b["ops"][:q]]
-        case = {"kind": "registry", "history": hist, "operations": b["ops"][:q], "operation": b["ops"][q - 1], "observed": b["obs"][q - 1], "failed_clauses": clauses}
+        case = {"kind": "registry", "machine": b["mach"], "flavour": b.get("flavour", "-"), "history": hist, "operations": b["ops"][:q], "operation": b["ops"][q - 1], "observed": b["obs"][q - 1], "failed_clauses": clauses}
         refc = [c for c in clauses if c.startswith("ref")]
         if not refc:
             rep.add_drift(f"registry: the real code agrees with Ref but not with the Alg transcription ({clauses})", case)
@@ -1658,6 +1665,14 @@ def run(rep, tier, rnd, scratch):
     if reg_obs:
         rep.sample({"part": "trace-reg", "observation": _short(reg_obs[len(reg_obs) // 3]), "python": reg_meta[len(reg_obs) // 3]}, limit=14)
     return rep.finish()
+
+
+def _alias_diverged(b, q) -> bool:
+    """non-vacuity: at step q (a probe) the caller's list no longer holds the content the probed type was created from"""
+    for k in range(q - 1, -1, -1):
+        if b["ops"][k]["op"] == "mutate":
+            return b["outs"][k]["cont"] != b["outs"][q]["cont"]
+    return False
 
 
 def _cpu() -> float:
